@@ -98,7 +98,7 @@ PROPS['C19'] = dict(
 PROPS['C20'] = dict(
     level='other',
     claim='raptor DefaultWorker._alloc/_dealloc verified for every occupancy vector and request size (count-based loop invariants, no bound): a grant names exactly the requested number of distinct free cells and marks only those; release is the inverse (round-trip lemma); grants are disjoint from cells held by other requests (lemma). DefaultWorker._request_cb: every request of a bulk is either started - only after a grant, which it keeps - or answered without a process, its grant given back and the error attached: exactly one (allocation waits modelled with an arbitrary environment step on the occupancy); DefaultWorker._result_cb: the grant is given back once, the request answered once with what the call produced, its process entry removed and no other. Master._result_cb: every returned request is handed on once with target state DONE iff it reported exit code 0, FAILED otherwise; Master._submit_tasks: every request of a bulk goes exactly one way, executable requests to the execution path of the pilot and every other mode to the workers. The per-mode dispatchers (function, eval, exec, process, shell: return value, captured output, exit code, exception record, environment and output streams restored) and whole request / completion histories are decided by bounded native runs of the real code (labelled bounded)',
-    note='mp.Process / proc.start by assumed contract (a process is started or an exception is raised, nothing in between); the scheduler-side raptor forwarding is not under contract; the two-process time-out of _dispatch is outside this family; exec / eval / StringIO redirection are outside the verified subset, so the dispatchers are bounded only; demands beyond the worker size are outside the property (the except path of _request_cb would then fail in _dealloc: noted, not a finding)',
+    note='mp.Process / proc.start by assumed contract (a process is started or an exception is raised, nothing in between); the two-process time-out of _dispatch is outside this family; exec / eval / StringIO redirection are outside the verified subset, so the dispatchers are bounded only; demands beyond the worker size are outside the property (the except path of _request_cb would then fail in _dealloc: noted, not a finding)',
     assumptions=['A2', 'A4', 'A5', 'A7', 'A11'],
     trusted_base=['multiprocessing.Process: start() starts the child or raises (assumed)', 'ru.zmq.Putter.put delivers the answer (message transport)'],
     explanation='allocator functional contract + inverse lemma + disjointness lemmas; ghost counters of grants / releases and ghost logs of started and answered requests on _request_cb / _result_cb (per-request statement contract composed over the bulk); exit code -> target state as a postcondition of Master._result_cb; bounded native dispatch of request payloads and bounded native request histories',
@@ -111,7 +111,7 @@ PROPS['C20'] = dict(
              'exit code 0 -> DONE, otherwise FAILED; handed on once (master)': 'P (Master._result_cb)',
              'return value / output / exit code / exception per mode; environment and streams restored': 'B (worker-dispatch)',
              'routing by mode (Master._submit_tasks)': 'P (every request goes exactly one way: executable mode to the pilot path, every other mode to the workers)',
-             'scheduler-side forwarding of raptor tasks': 'not under contract'})
+             'scheduler-side forwarding of raptor tasks (to the named master, spread over registered masters, parked; relayed on registration, failed when the master disappears): each task exactly one way': 'P per step + native histories in the replay builder'})
 
 PROPS['C01'] = dict(
     level='other',
